@@ -234,9 +234,13 @@ def run(ctx):
         for v in sorted(tvars):
             n_t += 1
             conv = False
-            for n in ast.walk(fn):
-                if isinstance(n, ast.If) and isinstance(n.test, ast.Call) and dotted(n.test.func) == "isinstance" and A.norm(n.test.args[0]) == v and A.norm(n.test.args[1]) == "int":
-                    conv = any(isinstance(s2, ast.Assign) and A.norm(s2.targets[0]) == v and isinstance(s2.value, ast.Call) and A.call_name(s2.value) == "Immediate" for s2 in n.body)
+            # under the fact `isinstance(v, int)` the operand is wrapped as Immediate(v) (bound to v itself or to another local)
+            for n in A.body_nodes(fn):
+                if isinstance(n, ast.Assign) and isinstance(n.value, ast.Call) and A.call_name(n.value) == "Immediate":
+                    args_ = list(n.value.args) + [k_.value for k_ in n.value.keywords]
+                    if len(args_) == 1 and A.norm(args_[0]) == v and any(
+                            pol and isinstance(t, ast.Call) and dotted(t.func) == "isinstance" and A.norm(t.args[0]) == v and A.norm(t.args[1]) == "int" for t, pol in G.path_conditions(fn, n)):
+                        conv = True
             ctx.check("C06.T", f"{fo.name}.from_operands:{v}:int-converted-where-template-admitted", conv,
                       f"{fo.name}.from_operands admits a Template for `{v}` but does not convert a raw int there to an Immediate; instantiating the template would leave an int operand", fo.loc(fn),
                       sample={"class": fo.name, "operand": v})
